@@ -7,15 +7,35 @@ import t_rad
 PID = "C12"
 LEVEL = "proof"
 
-OBL = """From Coq Require Import ZArith QArith List Bool.
+OBL = """From Coq Require Import ZArith QArith List Bool Reals.
 Import ListNotations.
-From LV Require Import Radial.RadialSym gen.RadialCases.
+From LV Require Import Radial.RadialSym Radial.RadialSound Radial.RadialTable gen.RadialCases.
+Local Open Scope Z_scope.
 (* every coefficient is a Laurent polynomial in (p,x,y) (all divisors are monomials, no integer/integer
    division), base cases T(k,0,0) = values[k-2], and every case whose three predecessors are in the table
    satisfies the recurrence it is derived from (exact rational-function identity) *)
-Theorem table_ok : forallb (fun c => negb (is_bad (check_case cases (fst c)))) cases = true.
+Theorem table_ok_now : RadialTable.table_ok cases = true.
 Proof. vm_compute. reflexivity. Qed.
-Print Assumptions table_ok.
+Print Assumptions table_ok_now.
+Theorem table_wf_now : table_wf cases = true.
+Proof. vm_compute. reflexivity. Qed.
+(* hence (RadialTable.case_value): for every p, x, y <> 0 and every family T satisfying the base cases and the two
+   recurrences, the exact-arithmetic value of the case the switch selects for (i,j,k) is T(i,j,k) -- given the cases
+   the recurrences do not reach (printed below as VUnchecked; they are compared numerically) *)
+Theorem cases_sound : forall (p x y : R) (vals : basis -> R) (Tf : Z -> Z -> Z -> R),
+  p <> 0%R -> x <> 0%R -> y <> 0%R ->
+  (forall k, Tf 0 0 k = vals (BV (k - 2))) ->
+  (forall j k, 2 <= j -> Tf 0 j k = (Tf 0%Z (j - 2)%Z k - IZR (2 * j - 1) / (2 * y) * Tf 0%Z (j - 1)%Z (k - 1)%Z)%R) ->
+  (forall i j k, 1 <= i -> 1 <= j ->
+     Tf i j k = (IZR (2 + j - i - k) / (2 * x) * Tf (i - 1)%Z j (k - 1)%Z - y / x * Tf (i - 1)%Z (j - 1)%Z k + p / x * Tf (i - 1)%Z j (k + 1)%Z)%R) ->
+  (forall i j k l, 0 <= j < 100 -> 0 <= k < 100 -> check_case cases (key_of i j k) = VUnchecked ->
+     lookup cases i j k = Some l -> elc p x y vals l = Tf i j k) ->
+  forall i j k c, 0 <= i -> 0 <= j < 100 -> 0 <= k < 100 ->
+    find (fun c => fst c =? key_of i j k) cases = Some c -> ecase p x y vals (snd c) = Tf i j k.
+Proof.
+  intros p x y vals Tf Hp Hx Hy Sb Sj Si Anch. exact (case_value p x y Hp Hx Hy vals Tf Sb Sj Si cases table_wf_now table_ok_now Anch).
+Qed.
+Print Assumptions cases_sound.
 Set Printing Depth 100000.
 Eval vm_compute in (map (fun c => (fst c, check_case cases (fst c), max_index (snd c))) cases).
 """
@@ -76,14 +96,16 @@ def run(tier, replay=None):
     bad_parse = [k for k, c in d["cases"].items() if c["n_statements"] != len(c["terms"])]
     open(os.path.join(COQ, "gen", "Obl_C12.v"), "w").write(OBL)
     ok = coq_properties(res, PID)
-    coq_make(["Radial/RadialSym.vo"])
+    coq_make(["Radial/RadialTable.vo"])
     rc1, o1 = coqc("gen/RadialCases.v")
     rc2, o2 = coqc("gen/Obl_C12.v") if rc1 == 0 else (1, o1)
     res.cov["obligations"] += 1
     obligation_ok = rc2 == 0 and not bad_parse
     if obligation_ok:
         res.cov["discharged"] += 1
-        verd = re.findall(r"\((\d+)%Z, (V\w+), (-?\d+|\(-\d+\))%Z\)", o2.replace("\n", " "))
+        verd = re.findall(r"\(\s*(\d+)(?:%Z)?,\s*(V\w+),\s*(-?\d+|\(-\d+\))(?:%Z)?\)", o2.replace("\n", " "))
+        if len(verd) != len(d["cases"]):
+            raise RuntimeError("could not read the verdict list printed by gen/Obl_C12.v")
         res.cov["case_verdicts"] = {v: sum(1 for x in verd if x[1] == v) for v in ("VBase", "VRj", "VRi", "VUnchecked")}
         res.cov["unchecked_by_recurrence"] = [int(x[0]) for x in verd if x[1] == "VUnchecked"]
     else:
@@ -174,7 +196,7 @@ def run(tier, replay=None):
             res.violation("radial-" + cid, {"theorem_or_correspondence": "T = defining integral (1e-6 rel + 1e-9 abs)", "input": by[cid], "observed": l, "attribution": why, "n_violations": len(viol),
                                             "oracle": {"grade": "G3", "what": "composite 20-point Gauss-Legendre of the definition, 64 vs 128 panels agree to 1e-10"}})
         if not obligation_ok and not res.violations:
-            res.violation("obligation", {"theorem_or_correspondence": "gen/Obl_C12.v table_ok", "bad_keys": bad_keys, "unparsed_statements_in_keys": bad_parse,
+            res.violation("obligation", {"theorem_or_correspondence": "gen/Obl_C12.v table_ok_now / table_wf_now / cases_sound", "bad_keys": bad_keys, "unparsed_statements_in_keys": bad_parse,
                                          "detail": res.cov.get("obligation_error")}, no_input=True)
         if not ok and not res.violations:
             proof_broken(res, PID, "Properties_C12.v no longer checks")
